@@ -9,10 +9,12 @@ from pytrs import PLSSDesc, Tract, find_sec  # noqa: E402
 
 ID = "C05"
 RULE = (
-    "List models of 1..6 items (single number | ascending range | descending range, span <= 12) over sections 1..99 "
+    "List models of 1..6 items - and, in two long-list sub-checks, up to 40 items - (single number | ascending range | descending range, span <= 12) over sections 1..99 "
     "and lots 1..999, rendered with every keyword form (singular/plural/abbreviated/symbol, with or without a space), "
     "through-spelling ('-', en/em dash, through, thru, thru., to), connective (', ' ' and ' ' & ' ', and ' '; ' line break) "
-    "and optional repetition of the keyword before an item or after a 'through'. Expected expansion is computed from the "
+    "with the list wrapping onto the next line before or after a connective, and optional repetition of the keyword before an "
+    "item or after a 'through'; optionally the same text is first read under other settings (copy_all, sec_colon_required, segment, "
+    "another layout, a dry run) since the expansion may not depend on that. Expected expansion is computed from the "
     "model. Non-trivial: >= 2 items with at least one range. Distinct = distinct (model, rendering)."
 )
 ASSUMPTIONS = [
@@ -28,12 +30,17 @@ LAYOUTS = {
 }
 
 
-def sec_case():
-    return st.fixed_dictionaries({"lst": L.rendered_list("sec", 99), "layout": st.sampled_from(sorted(LAYOUTS))})
+SEC_PRIOR = ["none", "none", "copy_all", "sec_colon_required", "find_sec", "other_layout", "segment"]
+LOT_PRIOR = ["none", "none", "dry_run", "unparsed_first", "other_depth"]
 
 
-def lot_case():
-    return st.fixed_dictionaries({"lst": L.rendered_list("lot", 999)})
+def sec_case(long=False):
+    return st.fixed_dictionaries({"lst": L.long_rendered_list("sec", 99) if long else L.rendered_list("sec", 99), "layout": st.sampled_from(sorted(LAYOUTS)),
+                                  "prior": st.sampled_from(SEC_PRIOR)})
+
+
+def lot_case(long=False):
+    return st.fixed_dictionaries({"lst": L.long_rendered_list("lot", 999) if long else L.rendered_list("lot", 999), "prior": st.sampled_from(LOT_PRIOR)})
 
 
 def validate(c):
@@ -70,6 +77,10 @@ def classes(c):
         out.append("three_digit")
     if "layout" in c:
         out.append(c["layout"])
+    out.append(f"prior={c.get('prior', 'none')}")
+    if any("\n" in x for k in ("connect", "through") for x in r[k][:len(items)]):
+        out.append("wraps_onto_next_line")
+    out.append("items>=25" if len(items) >= 25 else "items>=7" if len(items) >= 7 else "items<=6")
     return out
 
 
@@ -78,10 +89,24 @@ def sec_oracle(c):
     text = L.render(items, r)
     exp = [f"{n:02d}" for n in L.expand(items)]
     fails = []
+    full = LAYOUTS[c["layout"]].format(lst=text)
+    # what the list denotes does not depend on the same text having been read before under other settings
+    prior = c.get("prior", "none")
+    if prior == "copy_all":
+        PLSSDesc(full, layout="copy_all")
+    elif prior == "sec_colon_required":
+        PLSSDesc(full.replace(":", " "), config="sec_colon_required")
+        PLSSDesc(full, config="sec_colon_required")
+    elif prior == "find_sec":
+        find_sec(full)
+    elif prior == "other_layout":
+        other = PLSSDesc(full, wait_to_parse=True)
+        other.parse(layout="TRS_desc" if c["layout"] != "TRS_desc" else "desc_STR", commit=False)
+    elif prior == "segment":
+        PLSSDesc(full, config="segment,sec_within")
     got = find_sec(text)
     if got != exp:
         fails.append(Failure("find_sec", f"find_sec({text!r}) = {got}, expected {exp}", text=text, got=got, want=exp))
-    full = LAYOUTS[c["layout"]].format(lst=text)
     d = PLSSDesc(full)
     secs = [t.sec for t in d.tracts]
     if secs != exp:
@@ -108,6 +133,13 @@ def lot_oracle(c):
     nums = L.expand(items)
     exp = [f"L{n}" for n in nums]
     fails = []
+    prior = c.get("prior", "none")
+    if prior == "dry_run":
+        Tract(text).parse(commit=False)
+    elif prior == "unparsed_first":
+        Tract(text)
+    elif prior == "other_depth":
+        Tract(text, parse_qq=True, config="qq_depth.1,suppress_lot_divs.False")
     t = Tract(text, parse_qq=True)
     if list(t.lots) != exp:
         fails.append(Failure("lots", f"Tract({text!r}).lots = {t.lots}, expected {exp}", text=text, got=list(t.lots), want=exp))
@@ -140,8 +172,14 @@ def render_lot(c):
 SUBS = [
     Sub("sections", sec_oracle, strategy=lambda tier: sec_case(), nontrivial=nontrivial, classes=classes, render=render_sec, validate=validate,
         n={"quick": 1200, "thorough": 30000}, shards={"quick": 8, "thorough": 16},
-        essential=("has_descending", "keyword_after_through", "keyword_repeated", "mixed_connectives") + tuple(LAYOUTS)),
+        essential=("has_descending", "keyword_after_through", "keyword_repeated", "mixed_connectives", "wraps_onto_next_line",
+                   "prior=copy_all", "prior=sec_colon_required") + tuple(LAYOUTS)),
     Sub("lots", lot_oracle, strategy=lambda tier: lot_case(), nontrivial=nontrivial, classes=classes, render=render_lot, validate=validate,
         n={"quick": 1200, "thorough": 30000}, shards={"quick": 8, "thorough": 16},
         essential=("has_descending", "keyword_after_through", "three_digit")),
+    # long lists (a whole township of sections written out, long lot schedules)
+    Sub("long_sections", sec_oracle, strategy=lambda tier: sec_case(True), nontrivial=nontrivial, classes=classes, render=render_sec, validate=validate,
+        n={"quick": 120, "thorough": 3000}, shards={"quick": 4, "thorough": 16}, essential=("items>=25", "items>=7")),
+    Sub("long_lots", lot_oracle, strategy=lambda tier: lot_case(True), nontrivial=nontrivial, classes=classes, render=render_lot, validate=validate,
+        n={"quick": 120, "thorough": 3000}, shards={"quick": 4, "thorough": 16}, essential=("items>=25", "items>=7")),
 ]
